@@ -203,6 +203,66 @@ API — on any channels, under any schedule: no reachable state is stuck and eve
 theorem C20_handler_partial : DeadlockFreeForRows orderedRows :=
   deadlockFreeForRows_of_rank _ (by decide +kernel)
 
+/-- the order discipline composes: a request that respects it and ends holding nothing, followed by another
+such request, is again such a request -/
+theorem ordered_append {L : Type} [DecidableEq L] (lt : L → L → Prop) :
+    ∀ (r1 r2 : List (Ev L)) (held : List L), Ordered lt held r1 → Ordered lt [] r2 →
+      Ordered lt held (r1 ++ r2) := by
+  intro r1
+  induction r1 with
+  | nil =>
+    intro r2 held h1 h2
+    simp only [Ordered] at h1
+    subst h1
+    simpa using h2
+  | cons e r ih =>
+    intro r2 held h1 h2
+    cases e with
+    | acq l =>
+      simp only [List.cons_append, Ordered] at h1 ⊢
+      exact ⟨h1.1, ih r2 (l :: held) h1.2 h2⟩
+    | rel l =>
+      simp only [List.cons_append, Ordered] at h1 ⊢
+      exact ih r2 (held.erase l) h1 h2
+
+theorem ordered_flatten {L : Type} [DecidableEq L] (lt : L → L → Prop) :
+    ∀ (rs : List (List (Ev L))), (∀ r ∈ rs, Ordered lt [] r) → Ordered lt [] rs.flatten := by
+  intro rs
+  induction rs with
+  | nil => intro _; simp [Ordered]
+  | cons r rs ih =>
+    intro h
+    simp only [List.flatten_cons]
+    exact ordered_append lt r rs.flatten [] (h r (List.mem_cons_self ..))
+      (ih (fun r' hr' => h r' (List.mem_cons_of_mem _ hr')))
+
+/-- **C20 (partial, sessions).**  Every thread is a SESSION: it issues any finite sequence of protocol requests
+one after the other (a connection handler), each conforming to one of the rank-respecting rows
+(`orderedRows`: every handler arm except AddBlock / RemoveBlock / BlockChunk, every approver / API program except
+`persist_all`, every node-level kind of `subKinds`).  Any number of concurrent sessions, any schedule: no
+reachable state is stuck, every session completes within the total number of lock events. -/
+theorem C20_handler_partial_sessions (sessions : List (List (List (Ev Lock))))
+    (hconf : ∀ sess ∈ sessions, ∀ r ∈ sess, ∃ row ∈ orderedRows, ConformsRow row r) :
+    ∀ n s, Steps n (mkState (sessions.map List.flatten)) s →
+      n ≤ measure (mkState (sessions.map List.flatten)) ∧ (allDone s ∨ ∃ s', Step s s') := by
+  intro n s hs
+  have hrank : ∀ row ∈ orderedRows, ∀ e ∈ row, rankCls e.1 < rankCls e.2 := by decide +kernel
+  have h' := Locks_order_deadlock_free (L := Lock) (fun a b => rankCls a.cls < rankCls b.cls)
+    (fun _ => Nat.lt_irrefl _) (fun _ _ _ => Nat.lt_trans) (sessions.map List.flatten) (by
+      intro r hr
+      obtain ⟨sess, hsess, rfl⟩ := List.mem_map.mp hr
+      apply ordered_flatten
+      intro q hq
+      obtain ⟨row, hrow, hc, he⟩ := hconf sess hsess q hq
+      exact ordered_of_edges _ q [] (fun e hmem => hrank row hrow _ (hc e hmem)) he) n s hs
+  exact ⟨h'.1, h'.2.1⟩
+
+/-- non-vacuity of `C20_handler_partial_sessions`: a session of two channel requests on channels 0 and 1
+followed by a keysend approval, each conforming to its row of `subKinds` (⊆ `orderedRows`) -/
+example : ∀ r ∈ [instPath 0 (path .channel_request), instPath 1 (path .channel_request),
+                 instPath 0 (path .add_keysend)],
+    ∃ row ∈ orderedRows, ConformsRow row r := by decide +kernel
+
 /-- the generated canonical path of every rank-respecting front-end program (instantiated at channel 0)
 conforms to its own row and ends holding nothing: the hypotheses of `C20_handler_partial` are satisfiable by
 each of them (non-vacuity), and `armPaths` is consistent with `arms` -/
